@@ -24,6 +24,8 @@ type c12Op struct {
 	// marks operations whose newly stored chunks count as "stored by upload".
 	run    func(n *nodelite.Node) string
 	upload bool
+	reg    string // file that a successful run registers with chunkinfo (POST /aurora, cache)
+	regOK  string // outcome that means success
 }
 
 func c12SpanChunk(letter byte) []byte {
@@ -40,7 +42,7 @@ func c12Ops(u *nodelite.Universe, thorough bool) []c12Op {
 		if pin {
 			nm = "aurora+pin(" + f + ")"
 		}
-		return c12Op{name: nm, upload: true, run: func(n *nodelite.Node) string {
+		return c12Op{name: nm, upload: true, reg: f, regOK: "201", run: func(n *nodelite.Node) string {
 			c, ref := n.UploadAurora(f, u.ByName[f].Data, pin)
 			if c == 201 && !ref.Equal(u.ByName[f].Root) {
 				return "201-other-root"
@@ -69,7 +71,7 @@ func c12Ops(u *nodelite.Universe, thorough bool) []c12Op {
 		}}
 	}
 	cache := func(f string) c12Op {
-		return c12Op{name: "cache(" + f + ")", run: func(n *nodelite.Node) string {
+		return c12Op{name: "cache(" + f + ")", reg: f, regOK: "ok", run: func(n *nodelite.Node) string {
 			if err := n.Cache(u.ByName[f]); err != nil {
 				return "err:" + strings.SplitN(err.Error(), ":", 2)[0]
 			}
@@ -131,7 +133,8 @@ func TestVerifC12(t *testing.T) {
 		n, err := nodelite.New(nodelite.Options{Capacity: capacity, Universe: u})
 		x.NoErr(err, "node")
 		defer n.Close()
-		uploaded := map[string]bool{} // chunks whose current presence originates from an upload
+		uploaded := map[string]bool{}   // chunks whose current presence originates from an upload
+		registered := map[string]bool{} // files uploaded through POST /aurora or cached, and not evicted since
 		gcRuns, evictions := 0, 0
 		for step := 0; step < depth; step++ {
 			op := ops[x.Choose(len(ops))]
@@ -152,15 +155,14 @@ func TestVerifC12(t *testing.T) {
 					delete(uploaded, c) // removed by something that is not a GC run: no longer C12's subject
 				}
 			}
+			if op.reg != "" && out == op.regOK {
+				registered[op.reg] = true
+			}
 			x.Logf("%s -> %s   [%s]", op.name, out, s1.Key())
 			x.Outcome(op.name[:strings.IndexAny(op.name+"(", "(")] + ":" + out)
 
 			if s1.Trigger {
 				// ---- a garbage-collection run (worker loop), with the C12 oracle around it
-				refs := map[string]uint{}
-				for k, v := range n.CI.VerifTables().ChunkRefs {
-					refs[u.Name(boson.MustParseHexAddress(k))] = v
-				}
 				res := n.GC(gcCap)
 				gcRuns += res.Runs
 				s2, err := n.Snap()
@@ -178,6 +180,21 @@ func TestVerifC12(t *testing.T) {
 					}
 				}
 				evictions += len(evicted)
+				for _, r := range evicted {
+					for _, f := range u.Files {
+						if u.Name(f.Root) == r {
+							delete(registered, f.Name)
+						}
+					}
+				}
+				// reference model of the pyramid reference count after the run: number of
+				// registered files that were not evicted and contain the chunk
+				refs := map[string]uint{}
+				for f := range registered {
+					for _, a := range u.ByName[f].Closure {
+						refs[u.Name(a)]++
+					}
+				}
 				x.Logf("GC runs=%d collected=%d done=%v err=%v capHit=%v evicted=%v   [%s]", res.Runs, res.Collected, res.Done, res.Err, res.CapHit, evicted, s2.Key())
 				pinnedBefore := 0
 				for _, c := range s1.Pin {
@@ -191,7 +208,7 @@ func TestVerifC12(t *testing.T) {
 				if len(evicted) > 0 {
 					x.Tag("gc-evicted-a-file")
 					for c, r := range refs {
-						if r > 1 && s1.Data[c] && s2.Data[c] {
+						if r > 0 && s1.Data[c] && s2.Data[c] {
 							x.Tag("gc-kept-chunk-shared-with-registered-file")
 							break
 						}
@@ -216,10 +233,10 @@ func TestVerifC12(t *testing.T) {
 				}
 				sort.Strings(cs)
 				ctx := fmt.Sprintf("evicted %v; pins before {%s}; uploaded {%s}", evicted, c12PinStr(s1.Pin), c12Names(uploaded))
-				// 1. chunks counted for >= 2 registered files must survive in any case
+				// 1. chunks that a registered, not evicted file contains must survive in any case
 				for _, c := range cs {
-					if !s2.Data[c] && refs[c] > 1 && (s1.Pin[c] > 0 || uploaded[c]) {
-						x.Fail("gc-deleted-protected-chunk-counted-for-two-files", "GC deleted %s (pin %d, uploaded %v) although chunkinfo counts it for %d files; %s", c, s1.Pin[c], uploaded[c], refs[c], ctx)
+					if !s2.Data[c] && refs[c] > 0 && (s1.Pin[c] > 0 || uploaded[c]) {
+						x.Fail("gc-deleted-protected-chunk-of-remaining-registered-file", "GC deleted %s (pin %d, uploaded %v) although %d registered files that were not evicted contain it (the pyramid reference count must keep it); %s", c, s1.Pin[c], uploaded[c], refs[c], ctx)
 					}
 				}
 				// 2. pinned chunks
@@ -264,7 +281,7 @@ func TestVerifC12(t *testing.T) {
 			x.NoErr(err, "infokey")
 			sk, err := n.Snap()
 			x.NoErr(err, "snapshot")
-			if x.Seen(sk.Key()+"#"+ik+"#U:"+c12Names(uploaded), depth-step-1) {
+			if x.Seen(sk.Key()+"#"+ik+"#U:"+c12Names(uploaded)+"#R:"+c12Names(registered), depth-step-1) {
 				return
 			}
 		}
